@@ -196,8 +196,43 @@ fn report_failure(opts: &Opts, f: Failure) -> ! {
     if let Err(e) = std::fs::write(&path, serde_json::to_string_pretty(&rf).unwrap()) {
         harness_error(&format!("cannot write replay file {}: {}", path, e));
     }
+    // the replay file must reproduce the violation in a FRESH process. If the minimised trace
+    // does not (the minimiser can be misled when the code under test carries hidden state from
+    // one call to the next), fall back to the original trace of the failing run.
+    let fresh = |path: &str| -> bool {
+        match std::env::current_exe().ok().and_then(|exe| std::process::Command::new(exe).args(["replay", id, path]).output().ok()) {
+            Some(o) => o.status.code() == Some(1) && String::from_utf8_lossy(&o.stdout).contains("reproduced exactly"),
+            None => true, // cannot spawn: keep what we have
+        }
+    };
+    let mut rf = rf;
+    let mut v2 = v2;
+    let mut note = String::new();
+    if !fresh(&path) {
+        let have_original = rf.stream_original.is_some() || rf.builder_original.is_some() || matches!(&f.payload, Payload::Stream(_));
+        if have_original {
+            if let Payload::Stream(t) = &f.payload {
+                rf.stream_minimised = Some(t.clone());
+            }
+            if let Some(b) = rf.builder_original.clone() {
+                rf.builder_minimised = Some(b);
+            }
+            rf.clause = f.violation.clause.clone();
+            rf.detail = f.violation.detail.clone();
+            v2 = f.violation.clone();
+            let _ = std::fs::write(&path, serde_json::to_string_pretty(&rf).unwrap());
+            if fresh(&path) {
+                note = "minimised trace did not reproduce in a fresh process; the replay file holds the unminimised trace of the failing run, which does".into();
+            } else {
+                note = "NOT reproducible in a fresh process from the trace of this run alone: the behaviour depends on state outside the run (e.g. state the code under test keeps between calls, or buffer addresses); the violation was observed in this process as described".into();
+            }
+        }
+    }
     println!("VIOLATION property={} replay={}", id, path);
     println!("  clause {}: {}", v2.clause, v2.detail);
+    if !note.is_empty() {
+        println!("  note: {}", note);
+    }
     println!("  found in run {} (origin {}, seed {}); minimised with {} judge calls", f.index, rf.origin, rf.seed, rf.minimiser_judge_calls);
     write_evidence_violation(opts, &v2, &path);
     std::process::exit(1);
@@ -363,21 +398,36 @@ fn run_stream_check(opts: &Opts, prop: Prop, known: &[Known]) -> (Vec<Phase>, BT
             res
         });
         // every corruption confined to the checksum (all 2^24-1 XOR patterns) of a few frames
-        let cw_frames: Vec<sweep::CorpusFrame> = {
-            let mut v: Vec<sweep::CorpusFrame> = corpus.iter().filter(|f| f.label.starts_with("foreign:L=0,") || f.label.starts_with("foreign:L=1,") || f.label.starts_with("foreign:L=2,")).cloned().collect();
+        // frames: (frame, also through the scanner?)
+        let cw_frames: Vec<(sweep::CorpusFrame, bool)> = {
+            let mut v: Vec<(sweep::CorpusFrame, bool)> = corpus.iter().filter(|f| f.label.starts_with("foreign:L=0,") || f.label.starts_with("foreign:L=1,")).cloned().map(|f| (f, true)).collect();
+            // checksums that are all zero / start with zero bytes / all ones / start with 0xD3
+            for target in [0x000000u32, 0x0000A5, 0x00B6C7, 0xFFFFFF, 0xD30000] {
+                if let Some(f) = refmodel::make_frame_with_crc(0, &[0x3E, 0xD0, 0x11, 0x22, 0x33], target) {
+                    v.push((sweep::CorpusFrame { label: format!("foreign:L=5,crc={:06x}", target), bytes: f }, true));
+                }
+            }
+            // two-byte payloads = bare message numbers: boundaries of the standard (1001..1304 here),
+            // unsupported, and the proprietary range 4001..4095; thorough: all 4096 numbers (framer only)
+            let special: [u16; 18] = [0, 1, 999, 1000, 1001, 1005, 1077, 1230, 1304, 1305, 2047, 2048, 4000, 4001, 4072, 4094, 4095, 3999];
+            let numbers: Vec<u16> = if thorough { (0..4096).collect() } else { special.to_vec() };
+            for n in numbers {
+                let f = refmodel::make_frame(0, &[(n >> 4) as u8, ((n & 0xF) << 4) as u8]);
+                v.push((sweep::CorpusFrame { label: format!("foreign:L=2,number={}", n), bytes: f }, special.contains(&n)));
+            }
             let mut libs: Vec<&sweep::CorpusFrame> = corpus.iter().filter(|f| f.label.starts_with("lib:")).collect();
             libs.sort_by_key(|f| f.bytes.len());
             let take = if thorough { 12 } else { 2 };
             let step = (libs.len() / take).max(1);
             for f in libs.iter().step_by(step).take(take) {
-                v.push((*f).clone());
+                v.push(((*f).clone(), true));
             }
             v
         };
         let cw_evals = std::sync::atomic::AtomicU64::new(0);
         let (st_cw, fail_cw) = par_run(cw_frames.len() as u64 * 256, opts.jobs, |i, st| {
-            let fr = &cw_frames[(i / 256) as usize];
-            let (done, bad) = sweep::checksum_window_slice(fr, (i % 256) as u8);
+            let (fr, via_scanner) = &cw_frames[(i / 256) as usize];
+            let (done, bad) = sweep::checksum_window_slice(fr, (i % 256) as u8, *via_scanner);
             cw_evals.fetch_add(done, std::sync::atomic::Ordering::Relaxed);
             st.oracle_evals += done;
             st.fault_n("c04_burst", done);
@@ -392,7 +442,8 @@ fn run_stream_check(opts: &Opts, prop: Prop, known: &[Known]) -> (Vec<Phase>, BT
         let c = counts_m.into_inner().unwrap();
         extra = json!({
             "checksum_window_patterns": cw_total,
-            "checksum_window_frames": cw_frames.iter().map(|f| format!("{}/{}B", f.label, f.bytes.len())).collect::<Vec<_>>(),
+            "checksum_window_frames": cw_frames.iter().take(40).map(|(f, sc)| format!("{}/{}B{}", f.label, f.bytes.len(), if *sc { "+scanner" } else { "" })).collect::<Vec<_>>(),
+            "checksum_window_frame_count": cw_frames.len(),
             "sweep_corpus_frames": corpus.len(),
             "sweep_faults": {"flip1": c.flip1, "flip2": c.flip2, "flip_odd": c.flip_odd, "burst": c.burst},
             "exhaustive_subspaces": [
